@@ -5,7 +5,7 @@
 
    bls.hist CAP NK NM PHASE...      a symbolic history on one BlsCache of capacity CAP
      PHASE  = SCHED|THREAD|THREAD...     SCHED = t,t,t (thread indices) or -
-     THREAD = CALL;CALL...               CALL  = V<pairs>/<sig> | U<pair> | E<pairs> | L
+     THREAD = CALL;CALL...               CALL  = V<pairs>/<sig> | U<pair> | E<pairs> | L | B<pair>/<pair> (dishonest update)
      pairs  = pair,pair,... or -         pair  = k<i>.<j> | i.<j>   (key index / infinity, message index)
      sig    = RPN, comma separated: s<i>.<j> sign(k_i, M_j) | r<i>.<a>.<j> sign_raw(k_i, pk_a||M_j)
               | 0 infinity | t a fixed unrelated G2 point | x a curve point outside the subgroup
@@ -92,6 +92,11 @@ Definition sym_call (tok : bytes) : call (G1:=G1) (G2:=G2) (GT:=GT) :=
         | _ => CLen end
       else if byte_eqb c x55 (* U *) then
         let '(pk, m) := sym_pair rest in CUpdate (aug P pk m) (pairing_of P pk m)
+      else if byte_eqb c x42 (* B: a DISHONEST update: the pairing of another pair *) then
+        match split c_slash rest with
+        | [p1; p2] => let '(pk, m) := sym_pair p1 in let '(pk2, m2) := sym_pair p2 in
+                      CUpdate (aug P pk m) (pairing_of P pk2 m2)
+        | _ => CLen end
       else if byte_eqb c x45 (* E *) then CEvict (sym_pairs rest)
       else CLen
   | [] => CLen
@@ -126,30 +131,55 @@ Definition render_cache (univ : list (bytes * bytes)) (c : cache GT) : bytes :=
   join [c_comma] (map (fun k => match assoc_bytes k univ with Some n => n | None => str "?" end) (ckeys c))
   ++ str "]".
 
-Definition run_phase (reject_inf : bool) (univ : list (bytes * bytes)) (st : cache GT * list bytes) (tok : bytes)
-  : cache GT * list bytes :=
+Definition sym_phase (tok : bytes) : phase (G1:=G1) (G2:=G2) (GT:=GT) :=
   match split c_bar tok with
-  | sched :: threads =>
-      let progs := map sym_thread threads in
-      let sch := map (fun t => N.to_nat (dec t)) (split_list sched) in
-      let '(c', ts) := run_par P H reject_inf (fst st) progs sch in
-      let o := join [c_bar] (map (fun t => join [c_semi] (map (render_out reject_inf) (rev (t_outs t)))) ts) in
-      (c', (o ++ render_cache univ c') :: snd st)
-  | [] => st
+  | sched :: threads => (map sym_thread threads, map (fun t => N.to_nat (dec t)) (split_list sched))
+  | [] => ([], [])
   end.
+
+Definition render_phase (reject_inf : bool) (univ : list (bytes * bytes))
+  (x : cache GT * list (thread (G1:=G1) (G2:=G2) (GT:=GT))) : bytes :=
+  join [c_bar] (map (fun t => join [c_semi] (map (render_out reject_inf) (rev (t_outs t)))) (snd x))
+  ++ render_cache univ (fst x).
 
 Definition run_hist (reject_inf : bool) (args : list bytes) : bytes :=
   match args with
   | cap :: nk :: nm :: phases =>
       let univ := universe (dec nk) (dec nm) in
-      let '(_, outs) := fold_left (run_phase reject_inf univ) phases (empty_cache (dec cap), []) in
-      words (rev outs)
+      let r := run_history P H reject_inf (empty_cache (dec cap)) (map sym_phase phases) in
+      words (map (render_phase reject_inf univ) (snd r))
   | _ => str "ERR-ARGS"
   end.
+
+(* every augmented message a history over NK keys and NM messages can hash *)
+Definition universe_augs (nk nm : N) : list bytes :=
+  let keys := map (fun i => str "k" ++ to_dec (N.of_nat i)) (seq 0 (N.to_nat nk)) ++ [str "i"] in
+  let msgs := map (fun j => to_dec (N.of_nat j)) (seq 0 (N.to_nat nm)) in
+  str "tamper" :: flat_map (fun k => map (fun m => let '(pk, mm) := sym_pair (k ++ [c_dot] ++ m) in aug P pk mm) msgs) keys.
 End Sym.
 
-Definition h_hist : handler := run_hist toy sha256 true.
-Definition h_hist_pinned : handler := run_hist toy sha256 false.
+(* Execution speed only: the Gallina SHA-256 dominates the run time, and one history hashes the same
+   few augmented messages over and over.  [memo tbl f] is [f] with a table of precomputed values of f
+   itself in front (extensionally the same function), so the model that runs is still
+   Sched.run_history on the Toy instance. *)
+Definition memo {A} (tbl : list (bytes * A)) (f : bytes -> A) (b : bytes) : A :=
+  match assoc_bytes b tbl with Some v => v | None => f b end.
+Definition with_hash_to_g2 {G1 G2 GT} (P : pairing_ops G1 G2 GT) (f : bytes -> G2) : pairing_ops G1 G2 GT :=
+  {| o1 := o1 P; o2 := o2 P; oT := oT P; order := order P; gen1 := gen1 P; pair := pair P;
+     hash_to_g2 := f; enc1 := enc1 P |}.
+
+Definition run_hist_memo (reject_inf : bool) (args : list bytes) : bytes :=
+  match args with
+  | _ :: nk :: nm :: _ =>
+      let augs := universe_augs toy (dec nk) (dec nm) in
+      let tblG := map (fun a => (a, hash_to_g2 toy a)) augs in
+      let tblH := map (fun a => (a, sha256 a)) augs in
+      run_hist (with_hash_to_g2 toy (memo tblG (hash_to_g2 toy))) (memo tblH sha256) reject_inf args
+  | _ => str "ERR-ARGS"
+  end.
+
+Definition h_hist : handler := run_hist_memo true.
+Definition h_hist_pinned : handler := run_hist_memo false.
 
 (* ---------------- scalar layer (C16), real group order ---------------- *)
 Definition res_hexo (r : res N) : bytes :=
@@ -221,11 +251,30 @@ Definition h_sigparse (args : list bytes) : bytes :=
   words [ar (match u with Some _ => true | None => false end);
          ar (match c with Some _ => true | None => false end)].
 
+(* bls.lawsym SK32 SK32' PATH HIDDEN32 : the C16 laws evaluated on the Toy instance at the real group order
+   (both routes), printed as bits: derive-path commutes, addition commutes, synthetic commutes.
+   The implementation prints the same bits computed with the real library. *)
+Definition h_lawsym (args : list bytes) : bytes :=
+  let P := toy_bls in
+  match sk_from_bytes r_bls (hx (arg 0 args)), sk_from_bytes r_bls (hx (arg 1 args)) with
+  | Some a, Some b =>
+      let path := map dec (split_list (arg 2 args)) in
+      let hidden := hx (arg 3 args) in
+      words [ match sk_derive_path P sha256 a path, pk_derive_path P sha256 (pk_of P a) path with
+              | Ok s, Ok q => b01 (geqb (o1 P) (pk_of P s) q)
+              | _, _ => str "P" end;
+              b01 (geqb (o1 P) (pk_of P (sk_add (order P) a b)) (gadd (o1 P) (pk_of P a) (pk_of P b)));
+              match sk_derive_synthetic P sha256 a hidden, pk_derive_synthetic P sha256 (pk_of P a) hidden with
+              | Ok s, Ok q => b01 (geqb (o1 P) (pk_of P s) q)
+              | _, _ => str "P" end ]
+  | _, _ => str "BADSK"
+  end.
+
 Definition bls_handlers : list (bytes * handler) :=
   [ (str "bls.hist", h_hist); (str "bls.histpinned", h_hist_pinned);
     (str "bls.dersk", h_dersk); (str "bls.pkscalar", h_pkscalar); (str "bls.modgo", h_modgo);
     (str "bls.synsk", h_synsk); (str "bls.skparse", h_skparse); (str "bls.skadd", h_skadd);
-    (str "bls.pkparse", h_pkparse); (str "bls.sigparse", h_sigparse) ].
+    (str "bls.pkparse", h_pkparse); (str "bls.sigparse", h_sigparse); (str "bls.lawsym", h_lawsym) ].
 
 Definition dispatch_n (line : list N) : list N :=
   map b2n (dispatch_table bls_handlers (map n2b line)).
